@@ -107,6 +107,7 @@ impl<T> NewValuesMatrix<T> {
 //@ stub streams :: NewValuesMatrix::add_new_empty_generation
 //@ stub streams :: NewValuesMatrix::last_generation_is_empty
 //@ stub streams :: NewValuesMatrix::remove_last_generation
+//@ stub streams :: NewValuesMatrix::remove_empty_generations
 //@ stub streams :: NewValuesMatrix::generations_count
 }
 //@ lift air/src/execution_step/value_types/stream/stream_definition.rs :: struct Stream
@@ -304,11 +305,10 @@ impl StreamCursor {
         final(stream).previous_values == old(stream).previous_values, final(stream).current_values == old(stream).current_values,
         final(stream).new_values@ =~= without_empty_tail(old(stream).new_values@),
         final(stream).wf(),
-//@ after "stream.new_values().remove_last_generation();"
+//@ at-end
         proof {
             let m = old(stream).new_values@;
-            if m.len() > 0 {
-                assert(m.last().len() == 0);
+            if m.len() > 0 && m.last().len() == 0 {
                 assert(flat(m) =~= flat(m.drop_last()) + m.last());
                 assert(flat(m.drop_last()) + m.last() =~= flat(m.drop_last()));
             }
